@@ -26,6 +26,7 @@ RULE = (
     ' Round 5: bad objects also as property key, chart key, extra component and note data.'
     " Round 6: caller's codec error handler (errors='replace'), a subclass of CancelMutation."
     " Round 7: the unencodable character exactly on offsets 65535/65536/131071 of the text; strict runs after errors='replace' runs."
+    ' Round 8: charts-only inputs; a value with FF/VT/FS/GS/RS in every content.'
 )
 EXHAUSTIVE_PART = "per base configuration: all fault points of the classes body-exception, unserializable, unencodable, k-th filesystem call and LINE failpoints in the loading half and in the save sequence"
 ASSUMPTIONS = ["faults occur only at the enumerated points", "MemoryFS/NativeOSFS subclasses behave like their parents"]
